@@ -201,4 +201,85 @@ theorem set_mass2_spec (hs : LawfulSqrt sq) (p : MP2 K) (m : K) (hm : 0 ≤ m) (
 hypotheses are sign conditions only. -/
 example : (0 : ℚ) ≤ 2 ∧ (0 : ℚ) ≤ (2 : ℚ) := ⟨by norm_num, by norm_num⟩
 
+/-- **`reconstruct_inverse_inertia_matrix` is the inverse of `reconstruct_inertia_matrix`** (unit frame, all principal
+inertias finite and non-zero): both products are the identity. -/
+theorem reconstruct_inverse_spec (p : MP3 K) (hu : UnitQ p.frame) (hx : p.invI.x ≠ 0) (hy : p.invI.y ≠ 0) (hz : p.invI.z ≠ 0) :
+    letI := fieldNum K sq
+    p.reconstructInv.mul p.reconstruct = mone ∧ p.reconstruct.mul p.reconstructInv = mone := by
+  simp only [MP3.reconstructInv, MP3.reconstruct, MP3.principalInertia, inv_spec, toMat_inverse]
+  have h1 := conj_diag_mul sq p.frame hu ⟨p.invI.x * p.invI.x, p.invI.y * p.invI.y, p.invI.z * p.invI.z⟩
+    ⟨(p.invI.x * p.invI.x)⁻¹, (p.invI.y * p.invI.y)⁻¹, (p.invI.z * p.invI.z)⁻¹⟩
+  have h2 := conj_diag_mul sq p.frame hu ⟨(p.invI.x * p.invI.x)⁻¹, (p.invI.y * p.invI.y)⁻¹, (p.invI.z * p.invI.z)⁻¹⟩
+    ⟨p.invI.x * p.invI.x, p.invI.y * p.invI.y, p.invI.z * p.invI.z⟩
+  dsimp only at h1 h2
+  have e1 : ∀ x : K, x ≠ 0 → x * x * (x * x)⁻¹ = 1 := fun x hx => mul_inv_cancel₀ (mul_ne_zero hx hx)
+  have e2 : ∀ x : K, x ≠ 0 → (x * x)⁻¹ * (x * x) = 1 := fun x hx => inv_mul_cancel₀ (mul_ne_zero hx hx)
+  rw [h1, h2, e1 _ hx, e1 _ hy, e1 _ hz, e2 _ hx, e2 _ hy, e2 _ hz]
+  have hd : @M3.diag K (fieldNum K sq) ⟨1, 1, 1⟩ = mone := rfl
+  rw [hd, m3_mul_one, toMat_mul_transpose sq p.frame hu]
+  exact ⟨rfl, rfl⟩
+
+/-- **`world_inv_inertia_sqrt(rot)`** returns the six independent entries of the symmetric matrix
+`W = T diag(invI) Tᵀ`, `T` the rotation matrix of `rot * frame` (or zeros when all three `invI` vanish), and
+`W · W = R (reconstruct_inverse_inertia_matrix) Rᵀ`: the square root of the world-space inverse tensor — covariance of the
+inverse tensor under rotations. -/
+theorem world_inv_inertia_sqrt_spec (p : MP3 K) (rot : Quat K) (hr : UnitQ rot) (hf : UnitQ p.frame) :
+    letI := fieldNum K sq
+    let R := rot.toMat
+    let T := (Quat.mul rot p.frame).toMat
+    let W := (T.mul (M3.diag p.invI)).mul (mtr T)
+    (¬ (p.invI.x = 0 ∧ p.invI.y = 0 ∧ p.invI.z = 0) →
+        p.worldInvInertiaSqrt rot = (W.r0.x, W.r0.y, W.r0.z, W.r1.y, W.r1.z, W.r2.z)) ∧
+    ((p.invI.x = 0 ∧ p.invI.y = 0 ∧ p.invI.z = 0) → p.worldInvInertiaSqrt rot = (0, 0, 0, 0, 0, 0)) ∧
+    mtr W = W ∧
+    W.mul W = (R.mul p.reconstructInv).mul (mtr R) := by
+  intro R T W
+  refine ⟨?_, ?_, ?_, ?_⟩
+  · intro hnz
+    have hb : (decide (p.invI.x = 0) && decide (p.invI.y = 0) && decide (p.invI.z = 0)) = false := by
+      rw [Bool.eq_false_iff]
+      intro hb
+      simp only [Bool.and_eq_true, decide_eq_true_eq] at hb
+      exact hnz ⟨hb.1.1, hb.1.2, hb.2⟩
+    simp only [MP3.worldInvInertiaSqrt, fieldNum_neq', hb, Bool.not_false, if_true, scaleCols_eq, transpose_eq, W, T]
+  · rintro ⟨h1, h2, h3⟩
+    simp only [MP3.worldInvInertiaSqrt, fieldNum_neq', h1, h2, h3, decide_true, Bool.and_self, Bool.not_true, Bool.false_eq_true, if_false]
+  · simp only [W, mtr_mul, mtr_mtr, mtr_diag, m3_mul_assoc]
+  · have hu : UnitQ (@Quat.mul K (fieldNum K sq) rot p.frame) := unitQ_mul sq rot p.frame hr hf
+    have h := conj_diag_mul sq _ hu p.invI p.invI
+    dsimp only at h
+    simp only [W, T, R]
+    rw [h, toMat_mul, mtr_mul]
+    simp only [MP3.reconstructInv, toMat_inverse, m3_mul_assoc]
+
+/-- **capsule (3-D), closed form**: with `h = |b − a|`, cylinder volume `V_c = π r² h` and ball volume `V_b = 4/3 π r³`:
+centre = midpoint, mass `ρ(V_c + V_b)`, axial inertia `ρ(V_c r²/2 + V_b 2r²/5)`, transverse inertia
+`ρ(V_c (3r² + h²)/12 + V_b (2r²/5 + h²/4 + 3hr/8))` — the two hemispheres are moved by the parallel-axis theorem with the
+hemisphere centroid offset `3r/8` (`capsule3_is_solid_of_revolution`: these are the slicing integrals). -/
+theorem capsule3_spec (hs : LawfulSqrt sq) (pi ρ : K) (a b : V3 K) (r : K) (hpi : 0 ≤ pi) (hρ : 0 ≤ ρ) (hr : 0 ≤ r) :
+    letI := fieldNum K sq
+    let h := (b.sub a).norm
+    let Vc := pi * r ^ 2 * h
+    let Vb := 4 / 3 * pi * r ^ 3
+    let x := fromCapsule3 pi ρ a b r
+    x.1 = V3.center a b ∧ x.2.1⁻¹ = ρ * (Vc + Vb) ∧
+    (x.2.2.y * x.2.2.y)⁻¹ = ρ * (Vc * (r ^ 2 / 2) + Vb * (2 * r ^ 2 / 5)) ∧
+    (x.2.2.x * x.2.2.x)⁻¹ = ρ * (Vc * ((3 * r ^ 2 + h ^ 2) / 12) + Vb * (2 * r ^ 2 / 5 + h ^ 2 / 4 + 3 * h * r / 8)) ∧
+    x.2.2.z = x.2.2.x := by
+  intro h Vc Vb x
+  have hh : 0 ≤ h := hs.nonneg _ (by simp only [V3.normSq, V3.dot]; exact add_nonneg (add_nonneg (mul_self_nonneg _) (mul_self_nonneg _)) (mul_self_nonneg _))
+  have h3 : ((mkRat 3 1 : ℚ) : K) = 3 := by norm_num
+  have h4 : ((mkRat 4 1 : ℚ) : K) = 4 := by norm_num
+  have h5 : ((mkRat 5 1 : ℚ) : K) = 5 := by norm_num
+  have h8 : ((mkRat 8 1 : ℚ) : K) = 8 := by norm_num
+  have h12 : ((mkRat 12 1 : ℚ) : K) = 12 := by norm_num
+  have h14 : ((mkRat 1 4 : ℚ) : K) = 1 / 4 := by norm_num
+  simp only [x, Vc, Vb, fromCapsule3, cylinderVolInertia, ballVolInertia3, MP3.withFrame, V3.smul, V3.add, inv_spec,
+    fieldNum_sqrt, inv_inv, fieldNum_lit, fieldNum_two, h3, h4, h5, h8, h12, h14]
+  rw [show @V3.norm K (fieldNum K sq) (@V3.sub K (fieldNum K sq) b a) = h from rfl]
+  clear_value h
+  refine ⟨trivial, by ring, ?_, ?_, trivial⟩
+  · rw [sqrt_roundtrip sq hs _ (by positivity)]; ring
+  · rw [sqrt_roundtrip sq hs _ (by positivity)]; ring
+
 end C13
